@@ -745,7 +745,9 @@ def parse_sig(p):
                 d += 1
             elif x == '>':
                 d -= 1
-            if d == 0:
+            elif x == '>>':
+                d -= 2
+            if d <= 0:
                 break
     p.eat('(')
     params = []
@@ -929,6 +931,9 @@ class FnEmitter:
             return ty[3:]
         if isinstance(ty, str) and ty.startswith('obj:'):
             return ty[4:]
+        if isinstance(ty, str) and ty.startswith('pair:'):
+            a_, b_ = ty[5:].split(':')
+            return '(%s × %s)' % (self.lty(a_), self.lty(b_))
         if isinstance(ty, str) and ty.startswith('list:'):
             return 'List ' + paren(self.lty(ty[5:]))
         if ty == 'F' and self.generic_f:
@@ -993,6 +998,10 @@ class FnEmitter:
                 et = self.selftype
             if isinstance(et, str) and et in self.mod.objtypes:
                 return 'list:obj:' + et
+            if isinstance(et, tuple) and et[0] == 'tuple' and len(et[1]) == 2:
+                ab = [self.norm_ty(x) for x in et[1]]
+                if all(isinstance(x, str) and (x in INT_TYPES or x == 'F') for x in ab):
+                    return 'list:pair:%s:%s' % (ab[0], ab[1])
             e = self.norm_ty(et)
             if not (isinstance(e, str) and (e in INT_TYPES or (e == 'F' and self.generic_f))):
                 raise TranslateError('vector of %r' % (et,))
@@ -1055,11 +1064,30 @@ class FnEmitter:
                 if isinstance(v, list):
                     return self.const_agg(v, ty)
             raise TranslateError('unknown name %r' % (segs,))
+        if k == 'tuple' and isinstance(want, str) and want.startswith('pair:') and len(e[1]) == 2:
+            a_, b_ = want[5:].split(':')
+            x, y = self.ev(e[1][0], env, a_), self.ev(e[1][1], env, b_)
+            if x.agg or y.agg or x.ty != a_ or y.ty != b_:
+                raise TranslateError('pair of %r and %r, expected %s' % (x.ty, y.ty, want))
+            return SV('(%s, %s)' % (x.e, y.e), want, x.fv | y.fv)
         if k == 'tuple' or k == 'array':
             wants = [None] * len(e[1])
             if isinstance(want, tuple):
                 wants = want[1]
             return SV(items=[self.ev(x, env, w) for x, w in zip(e[1], wants)])
+        if k == 'selfcall':
+            _t, lname, lifted, ptys, rty = self.mod.selfmethods[e[1]]
+            svs = [env['@' + nm] for nm, _ in lifted] + [self.ev(a, env, pt) for a, pt in zip(e[2], ptys)]
+            if any(x.agg for x in svs) or isinstance(rty, tuple):
+                raise TranslateError('self-call %s with aggregate values' % e[1])
+            fv = frozenset().union(*[x.fv for x in svs])
+            argstr = ' '.join(paren(x.e if x.ty != 'bool' else 'decide (%s)' % x.e) for x in svs)
+            if self.generic_f and self.mod.generic_ok:
+                argstr, fv = 'O ' + argstr, fv | {'O'}
+            self.ok('%s_ok %s = true' % (lname, argstr), fv)
+            if rty == 'bool':
+                return SV('%s %s = true' % (lname, argstr), 'bool', fv)
+            return SV('%s %s' % (lname, argstr), rty, fv)
         if k == 'match':
             return self.matchexpr(e, env, want)
         if k == 'objcall':
@@ -1097,6 +1125,8 @@ class FnEmitter:
         if k == 'field':
             b = self.ev(e[1], env)
             if isinstance(e[2], int):
+                if not b.agg and isinstance(b.ty, str) and b.ty.startswith('pair:') and e[2] in (0, 1):
+                    return SV('%s.%d' % (paren(b.e), e[2] + 1), b.ty[5:].split(':')[e[2]], b.fv)
                 if b.agg:
                     return b.items[e[2]]
                 if b.ty == 'F' and e[2] == 0:
@@ -1350,6 +1380,28 @@ class FnEmitter:
                 return SV('List.isEmpty %s = true' % paren(x.e), 'bool', x.fv)
             if name in ('to_vec', 'clone', 'cloned', 'copied') and not args:
                 return x
+            if name == 'collect' and not args:
+                return x
+            if name == 'map' and len(args) == 1 and args[0][0] == 'closure' and len(args[0][1]) == 1:
+                xn = args[0][1][0]
+                env2 = dict(env)
+                env2[xn] = SV(xn + '_', x.ty[5:], [])
+                saved, self.oks = self.oks, []
+                n_st, n_g = len(self.steps), len(self.guards)
+                try:
+                    body = self.ev(args[0][2], env2, None)
+                    inner = self.oks
+                finally:
+                    self.oks = saved
+                if len(self.steps) != n_st or body.agg or not (body.ty in INT_TYPES or body.ty == 'F') \
+                        or any(g is not None for (g, c, fv) in inner):
+                    raise TranslateError('map closure with lets, guards or an aggregate value')
+                fv = x.fv | body.fv
+                if inner:
+                    cond = ' && '.join('decide (%s)' % c for (g, c, f_) in inner)
+                    cfv = frozenset().union(*[f_ for (g, c, f_) in inner]) | x.fv
+                    self.ok('List.all %s (fun %s_ => %s) = true' % (paren(x.e), xn, cond), cfv)
+                return SV('List.map (fun %s_ => %s) %s' % (xn, body.e, paren(x.e)), 'list:' + body.ty, fv)
             if name == 'fold' and len(args) == 2 and args[1][0] == 'closure' and len(args[1][1]) == 2:
                 init = self.ev(args[0], env, want)
                 if init.agg:
@@ -1382,6 +1434,14 @@ class FnEmitter:
                 return self.f_op(name, [x])
             if name in ('clone', 'conjugate'):
                 return x
+            if name == 'exp' and len(args) == 1 and self.generic_f and self.mod.generic_ok:
+                a0 = args[0]
+                if a0[0] == 'method' and a0[2] == 'into' and not a0[3]:
+                    a0 = a0[1]
+                kx = self.ev(a0, env, 'u64')
+                if kx.agg or not is_unsigned(kx.ty):
+                    raise TranslateError('exp with an exponent of type %r' % (kx.ty,))
+                return SV('O.pow %s %s' % (paren(x.e), paren(kx.e)), 'F', x.fv | kx.fv | {'O'})
             if name == 'inv' and not args and self.generic_f and self.mod.generic_ok:
                 return SV('O.inv %s' % paren(x.e), 'F', x.fv | {'O'})
             if name == 'mul_base' and len(args) == 1 and self.generic_f and self.mod.generic_ok:
@@ -1466,7 +1526,8 @@ class FnEmitter:
         if name == 'from_mont' or name == 'from_raw':
             x = self.ev(args[0], env, self.mod.rawty)
             return SV(x.e, 'F', x.fv)
-        if name == 'new' and segs[0] in ('Self', self.mod.ftype, 'BaseElement'):
+        if name == 'new' and segs[0] in ('Self', self.mod.ftype, 'BaseElement') \
+                and not (segs[0] == 'Self' and self.selftype in self.mod.structs):
             x = self.ev(args[0], env, self.mod.rawty)
             return self.f_new(x)
         if name == 'from' and segs[0] in ('Self', self.mod.ftype, 'BaseElement'):
@@ -1482,6 +1543,8 @@ class FnEmitter:
         if segs == ['vec!'] and len(args) == 1 and args[0][0] == 'array':
             et = want[5:] if isinstance(want, str) and want.startswith('list:') else None
             xs = [self.ev(a, env, et) for a in args[0][1]]
+            if xs and any(x.agg for x in xs):
+                raise TranslateError('vec![..] of tuples without a known element type')
             if not xs:
                 if et is None:
                     raise TranslateError('vec![] without a known element type')
@@ -1490,6 +1553,13 @@ class FnEmitter:
                 raise TranslateError('vec![..] of mixed types')
             fv = frozenset().union(*[x.fv for x in xs])
             return SV('[' + ', '.join(x.e for x in xs) + ']', 'list:' + xs[0].ty, fv)
+        if name == 'get_root_of_unity' and len(segs) == 2 and segs[0] in self.mod.ftypes and len(args) == 1 \
+                and self.generic_f and self.mod.generic_ok:
+            kx = self.ev(args[0], env, 'u32')
+            if kx.agg or kx.ty != 'u32':
+                raise TranslateError('get_root_of_unity of %r' % (kx.ty,))
+            self.ok('O.rootOk %s = true' % paren(kx.e), kx.fv | {'O'})
+            return SV('O.root %s' % paren(kx.e), 'F', kx.fv | {'O'})
         if name == 'from' and len(segs) == 2 and segs[0] in self.mod.ftypes and len(args) == 1:
             x = self.ev(args[0], env, 'F')
             if x.ty == 'F':
@@ -2028,6 +2098,10 @@ class FnEmitter:
             return self.f_new(self.lit(0, 'u64'))
         if et in INT_TYPES:
             return SV('0', et)
+        if et.startswith('pair:'):
+            a_, b_ = et[5:].split(':')
+            da, db = self.elem_default(a_), self.elem_default(b_)
+            return SV('(%s, %s)' % (da.e, db.e), et, da.fv | db.fv)
         raise TranslateError('no default element of type %r' % (et,))
 
     def objsig_of(self, T, m):
@@ -2088,6 +2162,8 @@ class FnEmitter:
             if xs.agg or not (isinstance(xs.ty, str) and xs.ty.startswith('list:')):
                 raise TranslateError('for over a value of type %r' % (xs.ty,))
             et = xs.ty[5:]
+        if not zipped and itermut is None and et.startswith('pair:') and pat[0] == 'ptuple':
+            zipped = tuple(et[5:].split(':'))
         if zipped:
             if pat[0] != 'ptuple' or len(pat[1]) != 2 or any(q[0] != 'pvar' for q in pat[1]):
                 raise TranslateError('pattern in a for over a zip')
@@ -2352,6 +2428,16 @@ class FnEmitter:
             return e
         if e[0] == 'pvar' and (e[1] in roots or e[1] in objvars):
             raise TranslateError('local %s shadows an object-typed parameter' % e[1])
+        if e[0] == 'method' and e[1] == ('path', ['self']) and e[3] and 'self' in roots and e[2] in self.mod.selfmethods \
+                and self.mod.selfmethods[e[2]][0] == roots['self']:
+            # self.m(args): a translated method of the same type; it receives the same accessor values of `self`
+            _t, lname, lifted, ptys, rty = self.mod.selfmethods[e[2]]
+            for nm, t in lifted:
+                old = self.lifted['self'].get(nm)
+                if old is not None and old != t:
+                    raise TranslateError('accessor %s has two types' % nm)
+                self.lifted['self'][nm] = t
+            return ('selfcall', e[2], self.lift(e[3], roots, objvars))
         if e[0] in ('path', 'method', 'field'):
             r = self.objref(e, roots)
             if r is not None:
@@ -2554,6 +2640,7 @@ class ModuleCtx:
         # and accessor signatures, names of the registered object / struct / enum types
         self.sources = [self.items]
         self.outs = {}                  # function name -> indices of its `&mut` (out) parameters
+        self.selfmethods = {}           # method name -> (type, lean name, lifted accessors of self, other param types, result)
         self.ftypes = set()             # further names of the field type (generic parameters `E`, `B`)
         self.fops_record = 'FOps'       # operations record of field-generic functions
         self.generic_ok = False         # field-generic functions with `_ok` (index bounds, assertions) and loops
@@ -2690,6 +2777,9 @@ class ModuleCtx:
         if em.objfns:
             return em           # takes function parameters: not callable from other translated items
         self.outs[key.split('::')[-1]] = [i for i, prm in enumerate(params) if len(prm) > 2]
+        if em.selftype is not None and 'self' in getattr(em, 'lifted', {}) and params and params[0][0] == 'self':
+            lifted = sorted(em.lifted['self'].items())
+            self.selfmethods[key.split('::')[-1]] = (em.selftype, leanname, lifted, em.ptys[len(lifted):], em.rty)
         self.sigs[key] = (leanname, em.ptys, em.rty)
         self.sigs[key.split('::')[-1]] = (leanname, em.ptys, em.rty) if key.split('::')[-1] not in self.sigs else self.sigs[key.split('::')[-1]]
         return em
@@ -2881,4 +2971,7 @@ structure FOpsX (F : Type) extends FOps F where
   isZero : F → Bool
   isOne : F → Bool
   pow : F → Nat → F
+  /-- `get_root_of_unity(k)` and the condition under which its assertions hold -/
+  root : Nat → F
+  rootOk : Nat → Bool
 '''
